@@ -588,6 +588,97 @@ def check_errpos(cx, lines):
 
 # --------------------------------------------------------------------------
 
+# --------------------------------------------------------------------------
+# flat repetitions (SyntaxFlat.tla): text of each construct; the value comes from the spec
+
+def flat_src(c, n):
+    rp = lambda piece, sep=" ": sep.join(piece for _ in range(n))
+    if c == "neg":
+        return "return " + rp("-1", " + ")
+    if c == "bnot":
+        return "return " + rp("~0", " + ")
+    if c == "len":
+        return 'return ' + rp('#"a"', " + ")
+    if c == "not":
+        return "local c = 0\n" + rp("if not false then c = c + 1 end", "\n") + "\nreturn c"
+    if c == "negtable":
+        return "local t = {" + ", ".join("-%d" % i for i in range(1, n + 1)) + "}\nreturn #t"
+    if c == "nottable":
+        return "local t = {" + rp("not false", ", ") + "}\nreturn #t"
+    if c == "paren":
+        return "return " + rp("(1)", " + ")
+    if c == "tablector":
+        return "local t = {" + rp("{}", ", ") + "}\nreturn #t"
+    if c == "funcs":
+        return "local t = {" + rp("function() end", ", ") + "}\nreturn #t"
+    if c == "ifs":
+        return "local c = 0\n" + rp("if true then c = c + 1 end", "\n") + "\nreturn c"
+    if c == "dos":
+        return "local c = 0\n" + rp("do c = c + 1 end", "\n") + "\nreturn c"
+    if c == "whiles":
+        return "local c = 0\n" + rp("do local k = 0 while k < 1 do k = k + 1 c = c + 1 end end", "\n") + "\nreturn c"
+    if c == "fors":
+        return "local c = 0\n" + rp("for i = 1, 1 do c = c + i end", "\n") + "\nreturn c"
+    if c == "calls":
+        return "local function f() return 1 end\nlocal c = 0\n" + rp("c = c + f()", "\n") + "\nreturn c"
+    if c == "methods":
+        return "local o = {m = function() return 1 end}\nreturn " + rp("o:m()", " + ")
+    if c == "index":
+        return "local t = {1}\nreturn " + rp("t[1]", " + ")
+    if c == "pow":
+        return "return math.tointeger(" + rp("1^1", " + ") + ")"
+    if c == "concatpairs":
+        return "return " + rp('#("a" .. "b")', " + ")
+    if c == "strcalls":
+        return 'local function f() return 1 end\nreturn ' + rp('f"x"', " + ")
+    if c == "locals":
+        return "\n".join("do local v%d = %d end" % (i, i) for i in range(1, n + 1)) + "\nlocal last = %d\nreturn last" % n
+    if c == "assigns":
+        return "local x = 0\n" + "\n".join("x = %d" % i for i in range(1, n + 1)) + "\nreturn x"
+    if c == "returns-in-funcs":
+        return "local s = 0\n" + rp("do local function g() return 1 end s = s + g() end", "\n") + "\nreturn s"
+    if c == "gotos":
+        return "local c = 0\n" + "\n".join("do goto l%d ::l%d:: c = c + 1 end" % (i, i) for i in range(1, n + 1)) + "\nreturn c"
+    if c == "repeat":
+        return "local c = 0\n" + rp("repeat c = c + 1 until true", "\n") + "\nreturn c"
+    raise Infra("unknown flat construct " + c)
+
+
+def check_flat(cx, lines):
+    cases = []
+    for i, l in enumerate(lines):
+        src = flat_src(l["c"], l["n"])
+        body = "local f, e = load(%s, '=c')\nif not f then emit('rejected', e) return end\nemit('value', pcall(f))" % lua_str(src)
+        cases.append({"id": i, "src": body, "timeout": 60000})
+    outs = run_lua_cases(cx.drv, cases)
+    cx.rep.cov["evaluations"] += len(cases)
+    for i, l in enumerate(lines):
+        o = outs[i]
+        cx.count("flat", l["c"])
+        nclass = "<1000" if l["n"] < 1000 else (">=1000" if l["n"] <= 5000 else ">5000")
+        why = bad_outcome(o)
+        ev = o.get("events") or []
+        if why is None:
+            if not ev:
+                why = "no-outcome"
+            elif sval0(ev[0][0]) == "rejected":
+                why = "valid-rejected"
+            elif ev[0][1] is not True:
+                why = "runtime-error"
+            elif ev[0][2] != {"i": str(l["val"])}:
+                why = "wrong-value"
+        if why:
+            cx.viol({"fam": "flat", "why": why, "construct": l["c"], "nclass": nclass},
+                    {"cmd": "lua-run", "construct": l["c"], "n": l["n"], "expected": l["val"], "src_head": flat_src(l["c"], l["n"])[:300],
+                     "observed": {k: v for k, v in o.items() if k != "events"}, "events": ev[:2]})
+    if lines:
+        cx.rep.sample({"family": "flat", "construct": lines[0]["c"], "n": lines[0]["n"], "source_head": flat_src(lines[0]["c"], lines[0]["n"])[:80]}, cap=20)
+
+
+def sval0(x):
+    return x.get("s") if isinstance(x, dict) else x
+
+
 def collect(module, cfg, sim=None, depth=None, timeout=3000):
     by = {}
 
@@ -665,6 +756,16 @@ def run(prop, tier):
         cov["configs"].append({"cfg": cfg, "distinct": res.distinct, "generated": res.generated, "cases": ncases,
                                "evaluations": cov["evaluations"] - n0, "tlc_wall_s": round(res.wall, 1)})
         log("[%s] %s: %d cases, %d evaluations" % (prop, cfg, ncases, cov["evaluations"] - n0))
+    if only != "lex":
+        flines = []
+        fres = run_tlc("SyntaxFlat", "SyntaxFlatQ.cfg" if tier == "quick" else "SyntaxFlatT.cfg", timeout=600, on_line=flines.append, workers=1)
+        if fres.violation:
+            raise Infra("SyntaxFlat: " + fres.violation)
+        n0 = cov["evaluations"]
+        check_flat(cx, flines)
+        cov["traces_validated_against_impl"] += len(flines)
+        cov["configs"].append({"cfg": "SyntaxFlat", "cases": len(flines), "evaluations": cov["evaluations"] - n0})
+        log("[%s] SyntaxFlat: %d cases" % (prop, len(flines)))
     cov["exhaustive"] = True
     rep.assumptions += [
         "decimal and hexadecimal float numerals denote the double nearest to their exact value (compared bit for bit only inside the normal finite range)",
